@@ -7,7 +7,7 @@ Emit == LET os == SetToSeq(OptMacros \X OptVals)
             rs == SetToSeq(ResMacros \X ResVals)
             ns == SetToSeq(NestedOpt)
             ps == SetToSeq(RebindPats)
-            mm == SetToSeq((0..1) \X (0..1))
+            mm == SetToSeq(MMKeys \X MMKeys)
         IN TLCGet("stats").generated >= 0 /\ ndJsonSerialize(IOEnv.OUT,
               [q \in 1..Len(os) |-> [m |-> "OptRes", fam |-> "option", mac |-> os[q][1], arg |-> os[q][2], exp |-> StdOpt(os[q][1], os[q][2])]]
            \o [q \in 1..Len(rs) |-> [m |-> "OptRes", fam |-> "result", mac |-> rs[q][1], arg |-> rs[q][2], exp |-> StdRes(rs[q][1], rs[q][2])]]
